@@ -10,7 +10,8 @@ from .C01 import _cmp_vec
 RULE = ("all call sequences up to length 4 (quick) / 5 (thorough) over an alphabet of set-start / append-line / hold / finish "
         "calls with scales {1,2,10,127}, durations {0,1,59999,60000,60001,150000,10^7}, coordinates inside the representable "
         "range, at its ends (+-32767*scale, -32768*scale) and outside it, fractional coordinates, yaw incl. negative and "
-        ">= 360; plus long random sequences. Non-trivial = a sequence with at least one successful append and a finish.")
+        ">= 360; plus long random sequences, holds and lines of weeks (chunk counts around 2^16, hold durations up to 2^32-1 ms, lines of hours) and "
+        "(thorough) a sequence of 6200 calls (more than 64 KiB of output in 11-byte segments). Non-trivial = a sequence with at least one successful append and a finish.")
 EXPLANATION = ("tokens per call (result code, buffer size), finished trajectory bytes and final builder bytes exact; positions "
                "at the cumulative time of each successful call within tol_at of the exact model AND (oracle from the property) "
                "within one quantum of the requested point, yaw within 0.1 degree modulo 360; total duration = sum of requested")
@@ -89,6 +90,25 @@ def cases(rng, tier):
                 calls.append("F")
         calls.append("F")
         yield ("build %d %d %s" % (scale, rng.choice([0, 1]), ";".join(calls)), "long")
+    # holds and lines of days and weeks ("however long they are"): tens of thousands of 60 s segments, chunk counts
+    # around 2^16, durations up to 2^32 - 1 ms; and trajectories whose bytes exceed 64 KiB
+    huge = [3932159999, 3932160000, 3932160001, 3932220000, 4000000000, 4294967295, 65535 * 60000, 65537 * 60000 + 1, 2 ** 31, 2 ** 31 + 60001]
+    for d in (huge if thorough else rng.sample(huge, 3) + [3932160001]):
+        scale = rng.choice([1, 2, 10])
+        calls = ["S:" + fmt_point(point(rng, scale)), "H:%d" % d, "L:" + fmt_point(point(rng, scale)) + ":1000", "F"]
+        yield ("build %d %d %s" % (scale, rng.choice([0, 1]), ";".join(calls)), "huge-hold")
+    # (a line of d ms is halved into 2^ceil(log2(d / 60000)) segments: hours, not weeks, keep the model's list appends feasible)
+    for d in ([28800001, 86400000, 120000001] if thorough else [28800001]):
+        scale = rng.choice([1, 10])
+        calls = ["L:" + fmt_point(point(rng, scale)) + ":%d" % d, "H:1000", "F"]
+        yield ("build %d %d %s" % (scale, 0, ";".join(calls)), "huge-line")
+    for i in range(1 if thorough else 0):
+        scale = rng.choice([1, 10])
+        calls = []
+        for _ in range(6200):
+            calls.append("L:" + fmt_point(point(rng, scale)) + ":" + str(rng.choice([20, 100, 1000])))
+        calls.append("F")
+        yield ("build %d %d %s" % (scale, 1, ";".join(calls)), "many-calls")
 
 
 def compare(case, om, oi):
